@@ -631,6 +631,17 @@ def mentions(v, claims) -> bool:
     return bool(cs & vs) or bool(co & vo)
 
 
+def _leaf_strings(v):
+    if isinstance(v, dict):
+        for x in v.values():
+            yield from _leaf_strings(x)
+    elif isinstance(v, (list, tuple)):
+        for x in v:
+            yield from _leaf_strings(x)
+    elif isinstance(v, str):
+        yield v
+
+
 def frame_scan():
     """Syntactic dependency check on _emit_access_log: `.claims` is read only as the redaction argument or in a
     truthiness test, and extra['claims'] is assigned only the redaction result."""
@@ -663,6 +674,9 @@ def replay_emit(inputs, ob):
     mode = inputs["redaction"]
     marker = {"r": "redactor-output"}
     records = []
+    if claims and mode == "fails" and not any(len(x) >= 3 for x in _leaf_strings(claims)):
+        # the model leaves the values unconstrained (often ""): give them recognisable text so a quote of them shows
+        claims = {"email": "LEAKMARK1@example.com", "n": {"token": "LEAKMARK2"}, "l": [{"phone": "LEAKMARK3"}]}
 
     class H(logging.Handler):
         def emit(self, record):
@@ -670,7 +684,7 @@ def replay_emit(inputs, ob):
 
     def redactor(c):
         if mode == "fails":
-            raise RuntimeError("boom")
+            raise RuntimeError(f"cannot redact {c!r}")  # as real redactors do: the message quotes what they choked on
         return marker
 
     logger = logging.getLogger("vgi_rpc.access")
@@ -700,6 +714,8 @@ def replay_emit(inputs, ob):
     got = extras[0].get("claims", "<absent>")
     want = marker if (claims and mode == "returns") else "<absent>"
     leaked = [k for k, v in extras[0].items() if k != "claims" and claims and (v is claims or v == claims)]
+    leaves = [x for x in _leaf_strings(claims) if len(x) >= 3]
+    leaked += [f"{k} (quotes claim value {x!r})" for k, v in extras[0].items() if k != "claims" and isinstance(v, (str, bytes, list, dict, tuple)) for x in leaves if x in repr(v)]
     bad = got != want or bool(leaked) or (got is claims and bool(claims))
     return ReplayResult(bad, f"claims={claims!r} redactor {mode}: record.claims={got!r} (wanted {want!r}) leaked_in={leaked}")
 
@@ -724,8 +740,18 @@ def emit(S):
     auth = SObj(AuthContext, domain="jwt", authenticated=True, principal=principal, claims=claims)
     result = {"r": S.str("redactor_output")}
 
-    def apply_h(S, c):
+    # apply_claim_redaction runs user redactor code over the raw claims: besides its return value, anything it can write
+    # to (a mutable argument the caller hands in) may come back carrying text derived from them - e.g. the message of
+    # the exception the redactor died with
+    side = S.str("text_derived_from_the_raw_claims")
+
+    def apply_h(S, c, *a, **kw):
         S.event("redact", c)
+        for v in list(a) + list(kw.values()):
+            if isinstance(v, list):
+                v.append(side)
+            elif isinstance(v, dict):
+                v["detail"] = side
         return result if redaction == "returns" else {}
 
     S.handlers["apply_claim_redaction"] = apply_h  # by contract (O2): the redactor's result, or {} when it raised
@@ -755,6 +781,7 @@ def emit(S):
             S.oblige("O3.claims_absent_only_when_empty_or_dropped", (not present) or redaction == "fails", kind="trace")
         rest = {k: v for k, v in extra.items() if k != "claims"}
         S.oblige("O3.no_raw_claim_symbol_elsewhere_in_record", not mentions(rest, claims) and not mentions(args, claims), kind="trace")
+        S.oblige("O3.nothing_derived_from_the_raw_claims_besides_the_redaction_result", not mentions(rest, [side]) and not mentions(args, [side]), kind="trace", witness="side channel of apply_claim_redaction")
         if present and redaction == "fails":
             S.oblige("O3.failed_redaction_drops_claims_entirely", "claims" not in extra, kind="trace")
     if info_on and present and redaction == "returns":
